@@ -25,8 +25,8 @@ def spec_sentence(E, nbytes, WL):
     ec = T.raw_op('ZFILL', T.cat(binstr(ent), checksum), T.const(bits + cs))
     chunks = T.raw_op('REFINDALL', T.const('.' * 11), ec)
     each = T.sym('each0')
-    idx = T.raw_op('MAP', each, T.raw_op('INTCAST', each, T.const(2)), chunks, T.TRUE, T.const('list'))
-    words = T.raw_op('MAP', each, T.getitem(WL, each), idx, T.TRUE, T.const('list'))
+    # (comprehensions over comprehensions are composed by the evaluator: one MAP over the 11-bit chunks)
+    words = T.raw_op('MAP', each, T.getitem(WL, T.raw_op('INTCAST', each, T.const(2))), chunks, T.TRUE, T.const('list'))
     return T.raw_op('JOIN', T.const(' '), words)
 
 
